@@ -282,6 +282,55 @@ func (e *Engine) builtin(st *State, th *Thread, fr *Frame, b *ssa.Builtin, args 
 			}
 			return nil
 		}
+	case "SliceData": // unsafe.SliceData
+		if a, ok := args[0].(SliceV); ok {
+			if a.Obj == 0 {
+				return Ptr{}
+			}
+			if st.obj(a.Obj).Kind != OBytes {
+				panic(&Unsupported{"unsafe.SliceData of a non-byte slice"})
+			}
+			return Ptr{Obj: a.Obj, Idx: a.Off}
+		}
+	case "String": // unsafe.String: the result aliases the memory
+		if p, ok := args[0].(Ptr); ok {
+			n := e.toIndex(args[1], cc.Args[1].Type())
+			if p.Obj == 0 {
+				return StrV{Arr: tb.ArrZero(), Off: tb.Int64(0), Len: tb.Int64(0)}
+			}
+			if st.obj(p.Obj).Kind != OBytes {
+				panic(&Unsupported{"unsafe.String of a non-byte object"})
+			}
+			off := p.Idx
+			if off == nil {
+				off = tb.Int64(0)
+			}
+			return StrV{Off: off, Len: n, Alias: p.Obj}
+		}
+	case "StringData": // unsafe.StringData
+		if s, ok := args[0].(StrV); ok {
+			if s.Alias != 0 {
+				return Ptr{Obj: s.Alias, Idx: s.Off}
+			}
+			id := e.allocBytes(st, tb.ArrCopy(tb.ArrZero(), tb.Int64(0), s.Arr, s.Off, s.Len), s.Len)
+			st.Heap[id].Site = "unsafe.StringData"
+			return Ptr{Obj: id, Idx: tb.Int64(0)}
+		}
+	case "Slice": // unsafe.Slice over bytes
+		if p, ok := args[0].(Ptr); ok {
+			n := e.toIndex(args[1], cc.Args[1].Type())
+			if p.Obj == 0 {
+				return SliceV{Off: tb.Int64(0), Len: tb.Int64(0), Cap: tb.Int64(0)}
+			}
+			if st.obj(p.Obj).Kind != OBytes {
+				panic(&Unsupported{"unsafe.Slice of a non-byte object"})
+			}
+			off := p.Idx
+			if off == nil {
+				off = tb.Int64(0)
+			}
+			return SliceV{Obj: p.Obj, Off: off, Len: n, Cap: n}
+		}
 	case "ssa:wrapnilchk":
 		if p, ok := args[0].(Ptr); ok && p.Obj == 0 {
 			e.raiseRuntime(st, th, "value method called using nil pointer")
